@@ -4317,6 +4317,15 @@ def check_onepoint(goal, ctx):
 
     # For each variable with one value, check for corresponding equality
     # in the body of lhs.
+    def eq_of(e, v):
+        """e is the equation between v and its value (or another one-point variable with that value)"""
+        if not e.is_equals():
+            return False
+        t = one_val_var[v]
+        def side_ok(o):
+            return o == t or (o in one_val_var and o != v and one_val_var[o] == t)
+        return (e.lhs == v and side_ok(e.rhs)) or (e.rhs == v and side_ok(e.lhs))
+
     if is_forall:
         # body must be in implies form, with each equation in the premise
         if l_bd.is_implies():
@@ -4325,49 +4334,22 @@ def check_onepoint(goal, ctx):
             for assm in assms:
                 conjs.extend(assm.strip_conj())
             for v, t in one_val_var.items():
-                found = False
-                for i, conj in enumerate(conjs):
-                    if conj.is_equals() and conj.lhs == v:
-                        found = True
-                        break
-                    if conj.is_equals() and conj.rhs == v:
-                        found = True
-                        break
-                if concl.is_not() and concl.arg.is_equals() and concl.arg.lhs == v:
+                found = any(eq_of(conj, v) for conj in conjs)
+                if concl.is_not() and eq_of(concl.arg, v):
                     found = True
-                    break
-                if concl.is_not() and concl.arg.is_equals() and concl.arg.rhs == v:
-                    found = True
-                    break
                 if not found:
                     raise VeriTException("onepoint", "forall - equation not found")
             return "FORALL-DISJ", l_bd, one_val_var, remain_var
         elif l_bd.is_disj():
             disjs = l_bd.strip_disj()
             for v, t in one_val_var.items():
-                found = False
-                for i, disj in enumerate(disjs):
-                    if disj.is_not() and disj.arg.is_equals() and disj.arg.lhs == v:
-                        found = True
-                        break
-                    if disj.is_not() and disj.arg.is_equals() and disj.arg.rhs == v:
-                        found = True
-                        break
-                if not found:
+                if not any(disj.is_not() and eq_of(disj.arg, v) for disj in disjs):
                     raise VeriTException("onepoint", "forall - equation not found")
             return "FORALL-DISJ", l_bd, one_val_var, remain_var
         elif l_bd.is_not() and l_bd.arg.is_conj():
             conjs = l_bd.arg.strip_conj()
             for v, t in one_val_var.items():
-                found = False
-                for i, conj in enumerate(conjs):
-                    if conj.is_equals() and conj.lhs == v:
-                        found = True
-                        break
-                    if conj.is_equals() and conj.rhs == v:
-                        found = True
-                        break
-                if not found:
+                if not any(eq_of(conj, v) for conj in conjs):
                     raise VeriTException("onepoint", "forall - equation not found")
             return "FORALL-DISJ", l_bd, one_val_var, remain_var
         else:
@@ -4376,13 +4358,12 @@ def check_onepoint(goal, ctx):
         # body must be in conjunction form, with each equation as a conjunct
         conjs = l_bd.strip_conj()
         for v, t in one_val_var.items():
+            found = False
             for i, conj in enumerate(conjs):
-                if conj.is_equals() and conj.lhs == v:
+                if eq_of(conj, v):
                     found = True
-                    break
-                if conj.is_equals() and conj.rhs == v:
-                    found = True
-                    conjs[i] = Eq(conj.rhs, conj.lhs)
+                    if conj.rhs == v:
+                        conjs[i] = Eq(conj.rhs, conj.lhs)
                     break
             if not found:
                 raise VeriTException("onepoint", "exists - equation not found")
